@@ -148,6 +148,7 @@ type exchange struct {
 	hdr      http.Header
 	body     []byte
 	hijacked bool
+	done     chan struct{}
 }
 
 type scen struct {
@@ -203,6 +204,7 @@ func (s *scen) tmpCount() int {
 // outer is what the HTTP server calls: it records the incoming request and hands Buffer a recording writer.
 func (s *scen) outer(w http.ResponseWriter, r *http.Request) {
 	ex := s.cur
+	defer close(ex.done)
 	ex.inHeader = r.Header.Clone()
 	base := rec{w: w, ex: ex}
 	if s.hj {
@@ -283,7 +285,7 @@ func (s *scen) doReq(f []string) string {
 	if framing != "cl" && framing != "ch" {
 		return "bad-op"
 	}
-	ex := &exchange{}
+	ex := &exchange{done: make(chan struct{})}
 	for _, t := range f[6:] {
 		if strings.HasPrefix(t, "a=") {
 			ex.atts = append(ex.atts, parseAttempt(t[2:]))
@@ -330,12 +332,14 @@ func (s *scen) doReq(f []string) string {
 		}
 	}
 	client.CloseIdleConnections()
-	// the handler goroutine may still be unwinding its deferred closes after the response was flushed
-	left := s.tmpCount()
-	for i := 0; i < 200 && left != 0; i++ {
-		time.Sleep(time.Millisecond)
-		left = s.tmpCount()
+	// the server goroutine may still be inside ServeHTTP (deferred closes, a hijacking handler) after the
+	// client has its response: wait until Buffer.ServeHTTP has returned
+	select {
+	case <-ex.done:
+	case <-time.After(3 * time.Second):
+		return "timeout-server"
 	}
+	left := s.tmpCount()
 	w := "none"
 	if ex.wrote {
 		w = fmt.Sprintf("%d|%s|%s", ex.status, showHeader(ex.hdr, false), showBytes(ex.body))
